@@ -10,11 +10,16 @@
    * `adfCreateEntry` with a name that already exists returns failure having written nothing, with the bitmap and all
      other library memory untouched (first of the "failed calls change nothing" cases; it is the kernel shared by
      create-file, create-directory and rename's destination).
-  Everything else of C02 — the full tree equality over histories, delete/rename/move, every other failing call, free
-  block counts — is decided on the real code by the history checks against the reference tree model
+   * removing or renaming a name that is not there, removing a non-empty directory or an unsupported entry, renaming or
+     moving onto an existing name: each fails and leaves disk, library memory (bitmap, free count) and write log as they
+     were; and the chain hypotheses of all these theorems are met by states the library's own block writer produces.
+  Everything else of C02 — the full tree equality over histories, successful delete/rename/move, moving a directory into
+  its own subtree, the DIRCACHE variants, free block counts — is decided on the real code by the history checks against the reference tree model
   (tools/spec.py) and the independent decoder, with the model tied trace-exactly.  (MANIFEST: partial.)
 -/
 import AdfProofs.NamespaceLemmas
+import AdfProofs.RefusalLemmas
+import AdfProofs.WriteReadLemmas
 import AdfProps.C15
 namespace Adf.C02
 open Adf
@@ -56,5 +61,68 @@ theorem C02_create_existing_changes_nothing (c : Cfg) (v : Nat) (dir : Blk) (nam
     Post (fun _ => False) c (createEntry v dir name) s (fun r s' =>
       r = (none, dir) ∧ s'.disk = s.disk ∧ s'.mem = s.mem ∧ writesOf s'.trace = writesOf s.trace) :=
   createEntry_duplicate_refused c v dir name chain s hf hch hne hlen hex
+
+/-- what a refused call leaves behind: the disk, the library memory (bitmap included) and the write log are as before -/
+theorem C02_remove_missing_changes_nothing (c : Cfg) (v pSect : Nat) (parent : Blk) (name : Bytes)
+    (chain : List (Nat × Blk)) (s : St)
+    (hf : s.faultAt = none) (hpar : EntryAt c s.disk v pSect parent)
+    (hch : ChainOn c s.disk v (parent.hash (hashName (useIntl (c.vol v).dosType) name)) chain)
+    (hlen : chain.length ≤ (c.vol v).lastBlock - (c.vol v).firstBlock + 1)
+    (hno : ∀ e ∈ chain, ¬ nameMatches (useIntl (c.vol v).dosType) name e.2) :
+    Post (fun _ => False) c (removeEntry v pSect name) s (fun rc s' => rc = rcError ∧ Untouched s s') :=
+  removeEntry_missing_refused c v pSect parent name chain s hf hpar hch hlen hno
+
+/-- deleting a non-empty directory (or an entry that is neither file nor directory) fails and changes nothing,
+    wherever the entry sits in its chain -/
+theorem C02_remove_nonempty_changes_nothing (c : Cfg) (v pSect : Nat) (parent : Blk) (name : Bytes)
+    (pre : List (Nat × Blk)) (n : Nat) (b : Blk) (post : List (Nat × Blk)) (s : St)
+    (hf : s.faultAt = none) (hpar : EntryAt c s.disk v pSect parent)
+    (hch : ChainOn c s.disk v (parent.hash (hashName (useIntl (c.vol v).dosType) name)) (pre ++ (n, b) :: post))
+    (hlen : (pre ++ (n, b) :: post).length ≤ (c.vol v).lastBlock - (c.vol v).firstBlock + 1)
+    (hpre : ∀ e ∈ pre, ¬ nameMatches (useIntl (c.vol v).dosType) name e.2)
+    (hm : nameMatches (useIntl (c.vol v).dosType) name b)
+    (hbad : (b.secType = ST_DIR ∧ isDirEmpty b = false) ∨ (b.secType ≠ ST_FILE ∧ b.secType ≠ ST_DIR)) :
+    Post (fun _ => False) c (removeEntry v pSect name) s (fun rc s' => rc = rcError ∧ Untouched s s') :=
+  removeEntry_nonempty_refused c v pSect parent name pre n b post s hf hpar hch hlen hpre hm hbad
+
+/-- renaming a missing source fails and changes nothing -/
+theorem C02_rename_missing_changes_nothing (c : Cfg) (v pSect nPSect : Nat) (parent : Blk) (oldName newName : Bytes)
+    (chain : List (Nat × Blk)) (s : St)
+    (hdiff : ¬ (pSect = nPSect ∧ oldName = newName))
+    (hf : s.faultAt = none) (hpar : EntryAt c s.disk v pSect parent)
+    (hch : ChainOn c s.disk v (parent.hash (hashName (useIntl (c.vol v).dosType) oldName)) chain)
+    (hlen : chain.length ≤ (c.vol v).lastBlock - (c.vol v).firstBlock + 1)
+    (hno : ∀ e ∈ chain, ¬ nameMatches (useIntl (c.vol v).dosType) oldName e.2) :
+    Post (fun _ => False) c (renameEntry v pSect oldName nPSect newName) s (fun rc s' => rc = rcError ∧ Untouched s s') :=
+  renameEntry_missing_refused c v pSect nPSect parent oldName newName chain s hdiff hf hpar hch hlen hno
+
+/-- renaming / moving onto a name that already exists in the destination directory fails and changes nothing — the
+    source entry stays where it was (the original code unlinked it first and lost it) -/
+theorem C02_rename_onto_existing_changes_nothing (c : Cfg) (v pSect nPSect : Nat) (parent nParent : Blk)
+    (oldName newName : Bytes) (pre : List (Nat × Blk)) (n : Nat) (b : Blk) (post : List (Nat × Blk))
+    (chain2 : List (Nat × Blk)) (s : St)
+    (hdiff : ¬ (pSect = nPSect ∧ oldName = newName))
+    (hnc : isDIRCACHE (c.vol v).dosType = false)
+    (hf : s.faultAt = none) (hpar : EntryAt c s.disk v pSect parent) (hnpar : EntryAt c s.disk v nPSect nParent)
+    (hch : ChainOn c s.disk v (parent.hash (hashName (useIntl (c.vol v).dosType) oldName)) (pre ++ (n, b) :: post))
+    (hlen : (pre ++ (n, b) :: post).length ≤ (c.vol v).lastBlock - (c.vol v).firstBlock + 1)
+    (hpre : ∀ e ∈ pre, ¬ nameMatches (useIntl (c.vol v).dosType) oldName e.2)
+    (hm : nameMatches (useIntl (c.vol v).dosType) oldName b)
+    (hch2 : ChainOn c s.disk v (nParent.hash (hashName (useIntl (c.vol v).dosType) newName)) chain2)
+    (hlen2 : chain2.length ≤ (c.vol v).lastBlock - (c.vol v).firstBlock + 1)
+    (hex : ∃ e ∈ chain2, e.1 ≠ n ∧ nameMatches (useIntl (c.vol v).dosType) newName e.2) :
+    Post AnyFault c (renameEntry v pSect oldName nPSect newName) s (fun rc s' => rc = rcError ∧ Untouched s s') :=
+  renameEntry_onto_existing_refused c v pSect nPSect parent nParent oldName newName pre n b post chain2 s
+    hdiff hnc hf hpar hnpar hch hlen hpre hm hch2 hlen2 hex
+
+/-- non-vacuity of all the chain hypotheses above: a two-entry chain is produced by the library's own block writer -/
+theorem C02_chain_hypotheses_reachable (c : Cfg) (v n1 n2 : Nat) (e1 e2 : Blk) (s : St)
+    (hf : s.faultAt = none) (hr1 : Readable c v n1) (hr2 : Readable c v n2) (hrw : (c.vol v).readOnly = false)
+    (hne : vsect c v n1 ≠ vsect c v n2) (h1 : n1 ≠ 0) (h2 : n2 ≠ 0)
+    (hwf1 : BlkWF e1) (hwf2 : BlkWF e2) (ht1 : e1.w F_type = T_HEADER) (ht2 : e2.w F_type = T_HEADER)
+    (hl1 : e1.w F_nextSameHash = n2) (hl2 : e2.w F_nextSameHash = 0) :
+    ∃ s', run c (do let _ ← writeEntryBlock v n2 e2; writeEntryBlock v n1 e1) s = (.ok rcOK, s') ∧
+          ChainOn c s'.disk v n1 [(n1, withSum e1 F_checkSum), (n2, withSum e2 F_checkSum)] :=
+  two_entry_chain_reachable c v n1 n2 e1 e2 s hf hr1 hr2 hrw hne h1 h2 hwf1 hwf2 ht1 ht2 hl1 hl2
 
 end Adf.C02
